@@ -76,6 +76,22 @@ func runC09(c *Ctx) {
 		ds = append(ds, fmt.Sprintf("%s: long session, %d host writes", p.Name, len(p.HostScript)))
 		c.S.Count("probe.long_session")
 	}
+	if c.T.Bool(1, 8) {
+		// two websocket connections that report the same connection id and overlap in time (a
+		// client that reconnects before its old connection is gone): websocket tunnels are not
+		// paired by id, each is a tunnel of its own
+		var ws []*TunPlan
+		for _, p := range tw.Plans {
+			if p.Transport == "ws" {
+				ws = append(ws, p)
+			}
+		}
+		if len(ws) >= 2 {
+			ws[1].ConnID = ws[0].ConnID
+			ds = append(ds, fmt.Sprintf("%s and %s report the same connection id", ws[0].Name, ws[1].Name))
+			c.S.Count("probe.same_connection_id_ws")
+		}
+	}
 	installStalls(c, 2+c.T.Choose(4))
 	tw.Tuns = StartTunnels(c, tw.Plans)
 	// hosts may end their connections themselves while clients are still sending
